@@ -636,7 +636,9 @@ func AuthResponseFormPost(res http.ResponseWriter, redirectURI string, response 
 }
 
 func setFragment(uri *url.URL, params url.Values) string {
-	uri.Fragment = params.Encode()
+	uri.RawFragment = params.Encode()
+	// keep Fragment consistent with RawFragment, so that String() emits RawFragment verbatim
+	uri.Fragment, _ = url.PathUnescape(uri.RawFragment)
 	return uri.String()
 }
 
